@@ -323,6 +323,35 @@ theorem Mid.stepW {S : Sem Val Err Op} {w1 : World Val Err Op} {env : PId → Va
   · intro i nd hi hn _ ⟨c, t', x, y, yr, hf, hc0⟩
     cases hc0
 
+theorem Mid.setHolders {S : Sem Val Err Op} {w1 : World Val Err Op} {env : PId → Val} {p : PId}
+    {cs : List (Consumer Val)} {wc : World Val Err Op} (m : Mid S w1 env p cs wc) (hs : List Val) :
+    Mid S w1 env p cs { wc with holders := hs } :=
+  ⟨⟨m.stat.vals, m.stat.nparams, m.stat.inputs, m.stat.trigs, m.stat.consumers, m.stat.nwatch, m.stat.cellsLen,
+     m.stat.stat⟩, m.cohP, m.old, m.invI, m.invX, m.invY⟩
+
+theorem Mid.stepS {S : Sem Val Err Op} {w1 : World Val Err Op} {env : PId → Val} {p : PId}
+    {cs : List (Consumer Val)} {wc wr : World Val Err Op} (hwf1 : WF w1) (hd1 : Dep w1) {fuel : Nat}
+    {k : Nat} {n : NId} {deps : List PId} {v : Val}
+    (m : Mid S w1 env p (.sync k n deps :: cs) wc) (hmem : Consumer.sync k n deps ∈ w1.consumers)
+    (h : run S fuel (.resolve n) wc = (.ok v, wr)) :
+    Mid S w1 env p cs wr ∧ ∃ nd, w1.nodes[n]? = some nd ∧ eval S w1.vals nd.expr = .ok v := by
+  obtain ⟨ns, hns, hclean, _⟩ := hd1.sync k n deps hmem
+  obtain ⟨nd, hn, rfl⟩ := stat_node' hns
+  have hwfc := hwf1.of_staticEq m.stat
+  have hclosed : Closed (CleanP w1) wc := (closed_cleanP hwf1 hd1).of_staticEq m.stat
+  obtain ⟨ndc, g1, g2⟩ := m.stat.node hn
+  have hP : CleanP w1 n := fun nd' hn' => by rw [hn] at hn'; cases hn'; exact hclean
+  have post := run_correct S (CleanP w1) fuel (.resolve n) wc _ wr hwfc hclosed m.cohP ⟨hP, ndc, g1⟩ h (by simp)
+  obtain ⟨e, he, hv⟩ := post.val
+  simp only [callExpr, g1, Option.map_some, Option.some.injEq] at he
+  subst he
+  rw [m.stat.vals, show ndc.expr = ndc.toNStat.expr from rfl, g2] at hv
+  refine ⟨(m.read hwf1 post).drop ?_ ?_, nd, hn, liftPy_ok_inv hv⟩
+  · intro i nd hi hn _ ⟨c, t', x, y, xr, hf, hc0⟩
+    cases hc0
+  · intro i nd hi hn _ ⟨c, t', x, y, yr, hf, hc0⟩
+    cases hc0
+
 /-- U3: the precedence-0 watchers of an update run to completion -/
 theorem runConsumers_mid {S : Sem Val Err Op} {w1 : World Val Err Op} {env : PId → Val} {p : PId}
     (hwf1 : WF w1) (hd1 : Dep w1) (fuel : Nat) :
@@ -394,6 +423,23 @@ theorem runConsumers_mid {S : Sem Val Err Op} {w1 : World Val Err Op} {env : PId
             · cases hk
               exact ⟨nd0, v, hn0, hv0, by simp [he1]⟩
             · exact hw k n deps' hk
+    | sync h0 n0 deps0 =>
+      simp only [runConsumers] at h
+      cases h1 : run S fuel (.resolve n0) wc with
+      | mk r wr =>
+        simp only [h1] at h
+        cases r with
+        | error x => cases x <;> simp at h
+        | ok v =>
+          simp only at h
+          obtain ⟨m1, _, _, _⟩ := m.stepS hwf1 hd1 hmem h1
+          obtain ⟨mf, ⟨extra, he1, he2⟩, hw⟩ := runConsumers_mid hwf1 hd1 fuel cs _ log calls w' hsub'
+            (m1.setHolders _) h
+          refine ⟨mf, ⟨extra, he1, fun kv hkv => ?_⟩, fun k n deps' hk => ?_⟩
+          · obtain ⟨n, d, nd, a1, a2, a3⟩ := he2 kv hkv
+            exact ⟨n, d, nd, by simp [a1], a2, a3⟩
+          · simp only [List.mem_cons, reduceCtorEq, false_or] at hk
+            exact hw k n deps' hk
 
 theorem suppS_spine : ∀ (e : Expr Val Op) (q : PId), q ∈ suppS (spine e) → q ∈ suppS e
   | .lit _, _, h => h
@@ -470,6 +516,16 @@ theorem mem_consumersOf {w : World Val Err Op} {q : PId} {c : Consumer Val} :
     c ∈ consumersOf w q ↔ c ∈ w.consumers ∧ q ∈ c.deps := by
   simp [consumersOf, List.mem_filter]
 
+theorem mem_dispatchOrder {w : World Val Err Op} {q : PId} {c : Consumer Val} :
+    c ∈ dispatchOrder w q ↔ c ∈ consumersOf w q := by
+  simp only [dispatchOrder, List.mem_append, List.mem_filter]
+  constructor
+  · rintro (h | h) <;> exact h.1
+  · intro h
+    by_cases hs : c.isSync = true
+    · exact Or.inl ⟨h, hs⟩
+    · exact Or.inr ⟨h, by simpa using hs⟩
+
 /-- **the update step**: storing a new input value, running the invalidation watchers and then the
 where-triggers / watch callbacks (none of which raised) re-establishes coherence for the new inputs -/
 theorem set_step {S : Sem Val Err Op} (hEq : ∀ a b, S.isEqual a b = true → a = b) {w : World Val Err Op}
@@ -501,7 +557,7 @@ theorem set_step {S : Sem Val Err Op} (hEq : ∀ a b, S.isEqual a b = true → a
         exact absurd (by simp only [hvals]) hne
     · have hwf1 := wf_setVal p v hwf
       have hd1 := dep_setVal p v hd
-      have m0 : Mid S (w.setVal p v) w.vals p (consumersOf (w.setVal p v) p) (invalidate (w.setVal p v) p) := by
+      have m0 : Mid S (w.setVal p v) w.vals p (dispatchOrder (w.setVal p v) p) (invalidate (w.setVal p v) p) := by
         refine ⟨staticEq_invalidate _ _, cohOn_clean_after_invalidate hwf hd hc p v, ?_, ?_, ?_, ?_⟩
         · intro i nd' _ hn'
           rw [invalidate_get] at hn'
@@ -535,7 +591,7 @@ theorem set_step {S : Sem Val Err Op} (hEq : ∀ a b, S.isEqual a b = true → a
             have ndep := hd.node i nd.toNStat (stat_node (w := w) hn)
             obtain ⟨_, _, hx, _⟩ := ndep.whereOK c t x y hf
             obtain ⟨xr, m1, m2⟩ := hx xe a2 (List.ne_nil_of_mem a3)
-            exact Or.inr ⟨c, t, x, y, xr, hf, mem_consumersOf.2 ⟨m1, m2 p a3⟩⟩
+            exact Or.inr ⟨c, t, x, y, xr, hf, mem_dispatchOrder.2 (mem_consumersOf.2 ⟨m1, m2 p a3⟩)⟩
         · intro i nd' _ hn' ⟨c, t, x, y, ce, ye, cv, hf, a1, a2, a3, a4, a5⟩
           rw [invalidate_get] at hn'
           cases hn : (w.setVal p v).nodes[i]? with
@@ -547,15 +603,15 @@ theorem set_step {S : Sem Val Err Op} (hEq : ∀ a b, S.isEqual a b = true → a
             have ndep := hd.node i nd.toNStat (stat_node (w := w) hn)
             obtain ⟨_, _, _, hy⟩ := ndep.whereOK c t x y hf
             obtain ⟨yr, m1, m2⟩ := hy ye a2 (List.ne_nil_of_mem a3)
-            exact Or.inr ⟨c, t, x, y, yr, hf, mem_consumersOf.2 ⟨m1, m2 p a3⟩⟩
+            exact Or.inr ⟨c, t, x, y, yr, hf, mem_dispatchOrder.2 (mem_consumersOf.2 ⟨m1, m2 p a3⟩)⟩
       obtain ⟨mf, ⟨extra, he1, he2⟩, hw⟩ := runConsumers_mid hwf1 hd1 fuel _ _ [] calls w'
-        (fun c hc => (mem_consumersOf.1 hc).1) m0 h
+        (fun c hc => (mem_consumersOf.1 (mem_dispatchOrder.1 hc)).1) m0 h
       have hvals' : w'.vals = (w.setVal p v).vals := mf.stat.vals
       refine ⟨mf.stat, mf.finish hd1 (fun q hq => by simp [World.setVal, hq]), ?_, ?_⟩
       · intro kv hkv
         rw [he1, List.nil_append] at hkv
         obtain ⟨n, deps, nd, a1, a2, a3⟩ := he2 kv hkv
-        exact ⟨n, deps, nd, (mem_consumersOf.1 a1).1, a2, by rw [hvals']; exact a3⟩
+        exact ⟨n, deps, nd, (mem_consumersOf.1 (mem_dispatchOrder.1 a1)).1, a2, by rw [hvals']; exact a3⟩
       · intro k n deps nd hk hn hne
         have hdw := hd.watch k n deps hk
         obtain ⟨ns, g1, g2, g3⟩ := hdw
@@ -571,7 +627,7 @@ theorem set_step {S : Sem Val Err Op} (hEq : ∀ a b, S.isEqual a b = true → a
           have : q ≠ p := fun h => hnot (h ▸ hq)
           simp [World.setVal, this]
         have hdeps : p ∈ deps := by rw [g3]; exact params_supset_support ndep g2 p hp
-        obtain ⟨nd', v', b1, b2, b3⟩ := hw k n deps (mem_consumersOf.2 ⟨hk, hdeps⟩)
+        obtain ⟨nd', v', b1, b2, b3⟩ := hw k n deps (mem_dispatchOrder.2 (mem_consumersOf.2 ⟨hk, hdeps⟩))
         rw [show (w.setVal p v).nodes[n]? = w.nodes[n]? from rfl, hn] at b1; cases b1
         exact ⟨v', by rw [hvals']; exact b2, b3⟩
 
